@@ -546,10 +546,10 @@ pub fn format_block(ctx: &Context, block: &Block, shape: Shape) -> Block {
         }
 
         // If this is the first stmt, then remove any leading newlines
+        // (whether it should be formatted was decided on the original statement above: the tokens of the
+        // formatted one no longer carry positions, so it must not be asked again when a range is given)
         if !found_first_stmt {
-            if let FormatNode::Normal = ctx.should_format_node(&stmt) {
-                stmt = stmt_remove_leading_newlines(stmt);
-            }
+            stmt = stmt_remove_leading_newlines(stmt);
             found_first_stmt = true;
         }
 
@@ -623,8 +623,7 @@ pub fn format_block(ctx: &Context, block: &Block, shape: Shape) -> Block {
             }
 
             // If this is the first stmt, then remove any leading newlines
-            if !found_first_stmt && matches!(ctx.should_format_node(&last_stmt), FormatNode::Normal)
-            {
+            if !found_first_stmt {
                 last_stmt = last_stmt_remove_leading_newlines(last_stmt);
             }
 
